@@ -21,102 +21,9 @@
 (*   UndersizedRaiseBecomesAllin, PotLimitCapsRaiseOnly                     *)
 (* see DESIGN.md 2.1.                                                       *)
 (***************************************************************************)
-EXTENDS Integers, Sequences, FiniteSets, TLC
+EXTENDS Settlement
 
 NULL == <<>>   \* JSON null / absent pointer
-
-Max2(a, b) == IF a > b THEN a ELSE b
-SeqOfSet(S) == \* ascending sequence of a finite set of integers
-  LET RECURSIVE F(_)
-      F(T) == IF T = {} THEN <<>>
-              ELSE LET m == CHOOSE x \in T : \A y \in T : x <= y
-                   IN <<m>> \o F(T \ {m})
-  IN F(S)
-SumF(f, S) == \* sum of f[i] for i in S
-  LET RECURSIVE G(_)
-      G(T) == IF T = {} THEN 0 ELSE LET x == CHOOSE x \in T : TRUE IN f[x] + G(T \ {x})
-  IN G(S)
-
------------------------------------------------------------------------------
-(* ---------- pots: pot/level_list.go ---------- *)
-Levels(c, S) ==
-  LET vals == SeqOfSet({c[i] : i \in S})
-  IN [k \in 1..Len(vals) |->
-        LET lv == vals[k]
-            prev == IF k = 1 THEN 0 ELSE vals[k-1]
-            cs == {i \in S : lv <= c[i]}
-        IN [level |-> lv, wager |-> lv - prev, total |-> Cardinality(cs) * (lv - prev), contributors |-> cs]]
-
-GetPots(c, f, S) ==
-  LET lv == Levels(c, S)
-      folded == {i \in S : f[i]}
-      orig == [k \in 1..Len(lv) |->
-                 [level |-> lv[k].level, wager |-> lv[k].wager, total |-> lv[k].total,
-                  contrib |-> [i \in (lv[k].contributors \ folded) |-> lv[k].wager],
-                  levels |-> <<lv[k]>>]]
-      RECURSIVE Merge(_, _)
-      Merge(acc, k) ==
-        IF k > Len(orig) THEN acc
-        ELSE IF acc = <<>> THEN Merge(<<orig[k]>>, k + 1)
-        ELSE LET prev == acc[Len(acc)]
-                 p == orig[k]
-             IN IF Cardinality(DOMAIN prev.contrib) # Cardinality(DOMAIN p.contrib)
-                THEN Merge(Append(acc, p), k + 1)
-                ELSE Merge([acc EXCEPT ![Len(acc)] =
-                              [level |-> p.level, wager |-> prev.wager + p.wager,
-                               total |-> prev.total + p.total,
-                               contrib |-> [i \in (DOMAIN prev.contrib) \cup (DOMAIN p.contrib) |->
-                                              (IF i \in DOMAIN prev.contrib THEN prev.contrib[i] ELSE 0)
-                                            + (IF i \in DOMAIN p.contrib THEN p.contrib[i] ELSE 0)],
-                               levels |-> prev.levels \o p.levels]], k + 1)
-      merged == Merge(<<>>, 1)
-      \* put folded players back: into pots 1..j where j is the first pot with level > wager
-      Upto(w) == LET js == {j \in 1..Len(merged) : w < merged[j].level}
-                 IN IF js = {} THEN Len(merged) ELSE CHOOSE j \in js : \A j2 \in js : j <= j2
-  IN [k \in 1..Len(merged) |->
-        [merged[k] EXCEPT !.contrib =
-           [i \in (DOMAIN merged[k].contrib) \cup {q \in folded : c[q] # 0 /\ k <= Upto(c[q])} |->
-              IF i \in folded THEN c[i] ELSE merged[k].contrib[i]]]]
-
-(* ---------- settlement: settlement/*.go ---------- *)
-\* score[i] : 0 for folded.  acc = [chg : S -> Int, potw : Seq(Seq([idx, withdraw]))]
-UpdateWinner(ws, i, amount) ==          \* settlement/pot.go: (*PotResult).UpdateWinner
-  IF \E j \in 1..Len(ws) : ws[j].idx = i
-  THEN [j \in 1..Len(ws) |-> IF ws[j].idx = i THEN [ws[j] EXCEPT !.withdraw = @ + amount] ELSE ws[j]]
-  ELSE Append(ws, [idx |-> i, withdraw |-> amount])
-
-\* CalculateWinnerRewards + CalculateLoserResults for one level of pot k.
-\* off = PotResult.oddOffset: odd chips already handed out by earlier levels of the same pot
-SettleLevel(l, score, acc, k, off) ==
-  LET cs == l.contributors
-      best == CHOOSE m \in {score[i] : i \in cs} : \A i \in cs : score[i] <= m
-      winners == SeqOfSet({i \in cs : score[i] = best})
-      n == Len(winners)
-      based == l.total \div n
-      rem == l.total % n
-      o == off % n
-      RECURSIVE W(_, _)
-      W(a, j) ==
-        IF j > n THEN a
-        ELSE LET i == winners[j]
-                 pos == ((j - 1) - o + n) % n
-                 reward == based + (IF pos < rem THEN 1 ELSE 0)
-                 wd == reward - l.wager
-                 a1 == [a EXCEPT !.chg[i] = @ + wd]
-             IN W(IF wd > 0 THEN [a1 EXCEPT !.potw[k] = UpdateWinner(@, i, wd + l.wager)] ELSE a1, j + 1)
-      afterW == W(acc, 1)
-      losers == cs \ {i \in cs : score[i] = best}
-  IN [acc |-> [afterW EXCEPT !.chg = [i \in DOMAIN afterW.chg |-> IF i \in losers THEN afterW.chg[i] - l.wager ELSE afterW.chg[i]]],
-      off |-> (o + rem) % n]
-
-Settle(pots, score, S) ==
-  LET RECURSIVE Lv(_, _, _, _)
-      Lv(acc, k, j, off) ==      \* level j of pot k
-        IF k > Len(pots) THEN acc
-        ELSE IF j > Len(pots[k].levels) THEN Lv(acc, k + 1, 1, 0)
-        ELSE LET r == SettleLevel(pots[k].levels[j], score, acc, k, off)
-             IN Lv(r.acc, k, j + 1, r.off)
-  IN Lv([chg |-> [i \in S |-> 0], potw |-> [k \in 1..Len(pots) |-> <<>>]], 1, 1, 0)
 
 -----------------------------------------------------------------------------
 (* ---------- the hand ---------- *)
